@@ -273,6 +273,7 @@ func (vc *VC) havoc(fr *Frame, st *State, ms *ModSet, why string) {
 		t := vc.u.heapKeys[k]
 		vc.heap(st, t)
 		st.heaps[k] = vc.fresh("H_"+k, "(Array Int "+vc.u.sortOf(t)+")")
+		vc.assume(vc.refsBelowAxiom(st.heaps[k], t, st.alloc))
 	}
 	for _, k := range sortedKeys(ms.maps) {
 		mt := vc.u.mapKeys[k]
@@ -282,6 +283,7 @@ func (vc *VC) havoc(fr *Frame, st *State, ms *ModSet, why string) {
 		st.mval[k] = vc.fresh("MV_"+k, "(Array Int (Array "+ks+" "+vs+"))")
 		st.mcard[k] = vc.fresh("MC_"+k, "(Array Int Int)")
 		vc.assume(fmt.Sprintf("(forall ((m Int)) (! (>= (select %s m) 0) :pattern ((select %s m))))", st.mcard[k], st.mcard[k]))
+		vc.assume(vc.mapRefsBelowAxiom(st.mval[k], mt, st.alloc))
 	}
 	if ms.rh {
 		st.rh = vc.fresh("RH", "Int")
@@ -730,6 +732,7 @@ func (vc *VC) applyModifies(fr *Frame, st, old *State, con *Contract, env *Env) 
 		t := vc.u.heapKeys[k]
 		vc.heap(st, t)
 		st.heaps[k] = vc.fresh("H_"+k, "(Array Int "+vc.u.sortOf(t)+")")
+		vc.assume(vc.refsBelowAxiom(st.heaps[k], t, st.alloc))
 		delete(heapT, k)
 	}
 	for _, k := range sortedKeys(heapT) {
@@ -742,6 +745,7 @@ func (vc *VC) applyModifies(fr *Frame, st, old *State, con *Contract, env *Env) 
 			outside = append(outside, fmt.Sprintf("(not (and (<= %s a) (< a %s)))", tg.lo, tg.hi))
 		}
 		vc.assume(fmt.Sprintf("(forall ((a Int)) (! (=> %s (= (select %s a) (select %s a))) :pattern ((select %s a))))", and(outside...), nh, h, nh))
+		vc.assume(vc.refsBelowAxiom(nh, t, st.alloc))
 		st.heaps[k] = nh
 	}
 	for k := range mapAll {
@@ -767,6 +771,7 @@ func (vc *VC) applyModifies(fr *Frame, st, old *State, con *Contract, env *Env) 
 		vc.assume(fmt.Sprintf("(forall ((m Int)) (! (=> %s (= (select %s m) (select %s m))) :pattern ((select %s m))))", o, nv, val, nv))
 		vc.assume(fmt.Sprintf("(forall ((m Int)) (! (=> %s (= (select %s m) (select %s m))) :pattern ((select %s m))))", o, nc, card, nc))
 		vc.assume(fmt.Sprintf("(forall ((m Int)) (! (>= (select %s m) 0) :pattern ((select %s m))))", nc, nc))
+		vc.assume(vc.mapRefsBelowAxiom(nv, mt, st.alloc))
 		st.mdom[k], st.mval[k], st.mcard[k] = nd, nv, nc
 	}
 }
